@@ -17,7 +17,7 @@ TABLE = {
     "C18": "hivemon.monitors.queue:C18",
     "C19": "hivemon.monitors.eventlog:C19",
     "C20": "hivemon.monitors.shift:C20",
-    "COV": "hivemon.monitors.coverage:Coverage",
+    "C13R": "hivemon.monitors.routes:C13R",
 }
 
 
